@@ -117,4 +117,96 @@ theorem single_template_entry (cfg : Pipeline.Config) (name : String) (src : Ter
           rw [hen, hname]
           exact ⟨rfl, hmain⟩
 
+/-- a source `Template::new` accepts parses -/
+theorem newTemplate_front (d : Delims) (name : String) (src : Tera.Bytes) (td : Pipeline.TemplateData)
+    (h : Pipeline.newTemplate d name src = .ok td) : ∃ t, Pipeline.front d src = .ok t := by
+  unfold Pipeline.newTemplate at h
+  cases hf : Pipeline.front d src with
+  | ok t => exact ⟨t, rfl⟩
+  | «syntax» => rw [hf] at h; cases h
+  | panic s => rw [hf] at h; cases h
+  | outOfFuel => rw [hf] at h; cases h
+
+/-- every template of the batch comes from one of the sources -/
+theorem newAll_mem (d : Delims) : ∀ (sources : List (String × Tera.Bytes)) (tds : List Pipeline.TemplateData),
+    Pipeline.newAll d sources = .ok tds → ∀ td ∈ tds, ∃ src, (td.name, src) ∈ sources ∧
+      ∃ t, Pipeline.front d src = .ok t ∧
+        Pipeline.storeChunk td.name (nodesCode 0 none t.nodes) = .ok td.main
+  | [], tds, h, td, htd => by
+    simp only [Pipeline.newAll, Except.ok.injEq] at h
+    subst h; cases htd
+  | (name, src) :: rest, tds, h, td, htd => by
+    simp only [Pipeline.newAll] at h
+    cases hn : Pipeline.newTemplate d name src with
+    | ok td0 =>
+      rw [hn] at h
+      simp only at h
+      cases hr : Pipeline.newAll d rest with
+      | error e => rw [hr] at h; cases h
+      | ok ts =>
+        rw [hr] at h
+        simp only [Except.ok.injEq] at h
+        subst h
+        rcases List.mem_cons.mp htd with rfl | hmem
+        · obtain ⟨t, hf⟩ := newTemplate_front d name src td hn
+          obtain ⟨hname, hmain⟩ := newTemplate_main d name src t td hf hn
+          exact ⟨src, by rw [hname]; exact List.mem_cons_self, t, hf, by rw [hname]; exact hmain⟩
+        · obtain ⟨src', hm, t, hf, hst⟩ := newAll_mem d rest ts hr td hmem
+          exact ⟨src', List.mem_cons_of_mem _ hm, t, hf, hst⟩
+    | «syntax» => rw [hn] at h; cases h
+    | panic s => rw [hn] at h; cases h
+    | outOfFuel => rw [hn] at h; cases h
+    | internal w => rw [hn] at h; cases h
+
+/-- **every entry of the VM's template table** after `addTemplatesT` on any batch of sources holds
+the STORED chunk of the compiled body of one of the sources, the one under the entry's own name -/
+theorem template_entry_sources (cfg : Pipeline.Config) (sources : List (String × Tera.Bytes))
+    (env : Pipeline.Env) (hadd : Pipeline.addTemplatesT cfg sources = .ok env) (name : String)
+    (tpl : TemplateInfo) (htpl : env.template name = some tpl) :
+    ∃ src, (tpl.name, src) ∈ sources ∧ ∃ t, Pipeline.front cfg.delims src = .ok t ∧
+      Pipeline.storeChunk tpl.name (nodesCode 0 none t.nodes) = .ok tpl.chunk := by
+  obtain ⟨tds, st, hnew, _, hbuild⟩ := Pipeline.addTemplatesT_inv cfg sources env hadd
+  unfold Pipeline.buildEnv at hbuild
+  cases hi : Pipeline.infosOf (Pipeline.namedOf tds) st.templates with
+  | none => rw [hi] at hbuild; simp at hbuild
+  | some tpls =>
+    cases hg : Pipeline.globalComponents (Pipeline.namedOf tds) st.comps with
+    | none => rw [hi, hg] at hbuild; simp at hbuild
+    | some comps =>
+      rw [hi, hg] at hbuild
+      simp only [Option.some.injEq] at hbuild
+      subst hbuild
+      have hassoc : Vm.assoc name (tpls ++ Pipeline.includeAliases cfg.prefixes (st.templates.map (·.tpl)) tpls
+          ((st.templates.map (·.tpl)).flatMap (·.includeCalls))) = some tpl := htpl
+      obtain ⟨k, hmem⟩ := Pipeline.assoc_mem hassoc
+      obtain ⟨r, hr⟩ : ∃ r, (r, tpl) ∈ tpls := by
+        rcases List.mem_append.mp hmem with h | h
+        · exact ⟨k, h⟩
+        · obtain ⟨r, hr⟩ := Pipeline.includeAliases_mem _ _ _ _ _ h
+          obtain ⟨r', hr'⟩ := Pipeline.assoc_mem hr
+          exact ⟨r', hr'⟩
+      obtain ⟨e, _, hinfo⟩ := (Pipeline.infosOf_spec _ st.templates tpls hi).2 _ hr
+      unfold Pipeline.infoOf at hinfo
+      cases hl : Pipeline.lookupLast e.tpl.name (Pipeline.namedOf tds) with
+      | none => rw [hl] at hinfo; cases hinfo
+      | some td' =>
+        rw [hl] at hinfo
+        simp only at hinfo
+        cases hlin : Pipeline.lineagesOf (Pipeline.namedOf tds) e.lineage with
+        | none => rw [hlin] at hinfo; cases hinfo
+        | some lin =>
+          rw [hlin] at hinfo
+          simp only [Option.some.injEq, Prod.mk.injEq] at hinfo
+          obtain ⟨_, htplEq⟩ := hinfo
+          have hmem' := Pipeline.lookupLast_mem _ _ _ hl
+          simp only [Pipeline.namedOf, List.mem_map] at hmem'
+          obtain ⟨td, htd, heq⟩ := hmem'
+          simp only [Prod.mk.injEq] at heq
+          obtain ⟨hen, rfl⟩ := heq
+          obtain ⟨src, hm, t, hf, hst⟩ := newAll_mem cfg.delims sources tds hnew td htd
+          subst htplEq
+          simp only
+          rw [← hen]
+          exact ⟨src, hm, t, hf, hst⟩
+
 end Tera.RefineE2E
